@@ -32,4 +32,13 @@ Definition suite_values (cmd : bytes) (args : list bytes) : option bytes :=
                          new_range a b (bytes_eqb spc b!"1")))
     | _ => None
     end
+  else if bytes_eqb cmd b!"cmp" then
+    (* Time.IsEqualTo / Time.IsAfterOrEqual on two literals *)
+    match args with
+    | [s1; s2] => Some (match parse_time (arg_bytes s1), parse_time (arg_bytes s2) with
+                        | Ok a, Ok b => words [b!"ok"; show_bool (time_eqb a b); show_bool (time_geb a b)]
+                        | _, _ => b!"err"
+                        end)
+    | _ => None
+    end
   else None.
